@@ -222,19 +222,60 @@ CELLSYNC_INVARIANTS = ['InvAdmission', 'InvFresh', 'InvFreshUnits', 'InvDocCapac
 # histories
 def from_labels(labels):
     """TLC action labels -> [(ev, id, r)]."""
+    def opt(o):
+        return o[0] if o else None
     hist = []
     for ev, args in labels:
-        if ev not in ('Create', 'Update', 'Delete'):
+        if ev == 'Sync':
+            hist.append((ev, ('', args[0]), None))
+            continue
+        if ev not in ('Create', 'Update', 'Delete', 'Assign', 'Unassign'):
             continue
         ident = (args[0]['alloc'], args[0]['cell'])
         if ev == 'Delete':
             hist.append((ev, ident, None))
             continue
+        if ev in ('Assign', 'Unassign'):
+            hist.append((ev, ident, dict(pattern=args[1], priority=args[2] if ev == 'Assign' else 0)))
+            continue
         r = args[1]
-        hist.append((ev, ident, dict(part=r['part'], tg=bool(r['tg']), traits=sorted(r['traits']),
-                                     cpu=tuple(r['cpu']), memory=tuple(r['memory']),
-                                     disk=tuple(r['disk']))))
+        req = dict(part=r['part'], tg=bool(r['tg']), traits=sorted(r['traits']),
+                   cpu=tuple(r['cpu']), memory=tuple(r['memory']), disk=tuple(r['disk']))
+        if 'rank' in r:     # CellSync.tla requests
+            req.update(rank=opt(r['rank']), adj=opt(r['adj']), maxu=opt(r['maxu']))
+        hist.append((ev, ident, req))
     return hist
+
+
+def weave_sync(rng, hist):
+    """Beyond C19: interleave a request history with cellsync runs of the cells
+    it touches, assignments of application patterns, and give some requests a
+    rank / rank adjustment / max utilisation.  The reservation requests and
+    their order are unchanged."""
+    cells = sorted({ident[1] for _ev, ident, _r in hist if ident[1]}) or ['c1']
+    patterns = ['proid.a*', 'proid.b-1#*', 'other.*']
+    out, seen = [], []
+    for ev, ident, r in hist:
+        if r is not None and 'pattern' not in r and rng.random() < 0.5:
+            r = dict(r, rank=rng.choice([None, None, 0, 50, 100]),
+                     adj=rng.choice([None, None, 0, 10]),
+                     maxu=rng.choice([None, None, '0.0', '1.5', '2.0']))
+        out.append((ev, ident, r))
+        if ev in ('Create', 'Update') and ident not in seen:
+            seen.append(ident)
+        x = rng.random()
+        if x < 0.45:
+            out.append(('Sync', ('', rng.choice(cells)), None))
+            if rng.random() < 0.25:     # twice in a row: idempotence
+                out.append(('Sync', ('', out[-1][1][1]), None))
+        elif x < 0.65 and seen:
+            out.append(('Assign', rng.choice(seen),
+                        dict(pattern=rng.choice(patterns), priority=rng.choice([0, 1, 5, 100]))))
+        elif x < 0.72 and seen:
+            out.append(('Unassign', rng.choice(seen), dict(pattern=rng.choice(patterns), priority=0)))
+    for c in cells:
+        out.append(('Sync', ('', c), None))
+    return out
 
 
 _SIZE_UNITS = [('K', 1), ('k', 1), ('M', 1024), ('m', 1024), ('G', 1048576), ('g', 1048576)]
@@ -347,7 +388,16 @@ def record(items):
         done = []
         for ev, ident, r in hist:
             present = {(x['alloc'], x['cell']) for x in lines[-1]['post']['res']}
-            if (ev == 'Create') == (ident in present):
+            if ev == 'Sync':
+                pass
+            elif ev in ('Assign', 'Unassign'):
+                if ident not in present:
+                    continue
+                if ev == 'Unassign' and not any(
+                        a[0] == r['pattern'] for x in lines[-1]['post']['res']
+                        if (x['alloc'], x['cell']) == ident for a in x['asg']):
+                    continue
+            elif (ev == 'Create') == (ident in present):
                 if ev == 'Create':
                     ev = 'Update'
                     if r['tg'] and not r['traits']:
